@@ -310,6 +310,8 @@ pub struct Faulty {
     /// true: perform a prefix of the write before failing (short write)
     short: Arc<AtomicU64>,
     fired: Arc<AtomicU64>,
+    /// number of flush() calls: the outermost storage transaction flushes when it ends
+    flushes: Arc<AtomicU64>,
 }
 
 impl Faulty {
@@ -335,9 +337,10 @@ impl StorageData for Faulty {
         self.inner.backup(name)
     }
     fn copy(&self, name: &str) -> Result<Self, DbError> {
-        Ok(Faulty { inner: self.inner.copy(name)?, calls: self.calls.clone(), fail_at: self.fail_at.clone(), short: self.short.clone(), fired: self.fired.clone() })
+        Ok(Faulty { inner: self.inner.copy(name)?, calls: self.calls.clone(), fail_at: self.fail_at.clone(), short: self.short.clone(), fired: self.fired.clone(), flushes: self.flushes.clone() })
     }
     fn flush(&mut self) -> Result<(), DbError> {
+        self.flushes.fetch_add(1, Ordering::Relaxed);
         self.inner.flush()
     }
     fn len(&self) -> u64 {
@@ -348,6 +351,7 @@ impl StorageData for Faulty {
     }
     fn new(name: &str) -> Result<Self, DbError> {
         Ok(Faulty {
+            flushes: Arc::new(AtomicU64::new(0)),
             inner: FileStorage::new(name)?,
             calls: Arc::new(AtomicU64::new(0)),
             fail_at: Arc::new(AtomicI64::new(-1)),
@@ -421,7 +425,7 @@ fn c32_case(c: &FaultCase) -> CaseResult {
     // pass 2: same history, fault at `call`
     let name = dir.file("db.agdb");
     let data = Faulty::new(&name).map_err(|e| Fail::new("harness: Faulty::new", format!("{e:?}")))?;
-    let (fail_at, short, fired, calls) = (data.fail_at.clone(), data.short.clone(), data.fired.clone(), data.calls.clone());
+    let (fail_at, short, fired, calls, flushes) = (data.fail_at.clone(), data.short.clone(), data.fired.clone(), data.calls.clone(), data.flushes.clone());
     let mut db: DbImpl<Faulty> = DbImpl::with_data(data).map_err(|e| Fail::new("harness: with_data", format!("{e:?}")))?;
     let mut model = RefDb::default();
     let mut info = HistInfo::default();
@@ -433,6 +437,7 @@ fn c32_case(c: &FaultCase) -> CaseResult {
     let _ = base;
     fail_at.store(call as i64, Ordering::Relaxed);
     short.store(c.short_write as u64, Ordering::Relaxed);
+    let flushes_before = flushes.load(Ordering::Relaxed);
     let step = &c.history[target];
     let snapshot = model.clone();
     let r = match step {
@@ -474,14 +479,27 @@ fn c32_case(c: &FaultCase) -> CaseResult {
         ));
     }
     model = snapshot;
+    // Trigger predicate of the listed known finding: the failed query left its storage
+    // transaction open (an early `?` return skipped the matching commit): the outermost storage
+    // transaction of a query flushes the storage when it ends, so a failed query during which
+    // the storage saw no flush() never closed it. Failures with the transaction properly
+    // closed have some other cause and get a signature naming the query kind, so that they are
+    // never absorbed by the known finding.
+    let stuck = flushes.load(Ordering::Relaxed) == flushes_before;
+    let kind = match step {
+        Step::Q(q) => q.kind().to_string(),
+        Step::Tx { .. } => "transaction".to_string(),
+    };
+    let cause = if stuck { " (storage transaction left open)".to_string() } else { format!(" (storage transaction closed; fault in {kind})") };
     // the query had no effect
     // Signatures are coarse on purpose: every failure below has one root cause (a storage
     // write failure in the middle of a query is not rolled back physically), the detailed
     // symptom goes to the detail text.
+    let cause_ref = &cause;
     let coarse = |class: &'static str| {
         move |mut f: Fail| {
             f.detail = format!("{}\n{}", f.sig, f.detail);
-            f.sig = class.to_string();
+            f.sig = format!("{class}{cause_ref}");
             f
         }
     };
@@ -490,7 +508,7 @@ fn c32_case(c: &FaultCase) -> CaseResult {
         .map_err(coarse("failed write: database unusable afterwards"))?;
     if after.normalized() != before.normalized() {
         return Err(Fail::new(
-            "failed write: the failed query's effect is not undone",
+            format!("failed write: the failed query's effect is not undone{cause}"),
             format!("differs in {}; step {target} {step:?}, failing storage call {call} of [{a},{b})\n{}", after.normalized().diff_section(&before.normalized()), after.normalized().diff(&before.normalized())),
         ));
     }
@@ -508,21 +526,22 @@ fn c32_case(c: &FaultCase) -> CaseResult {
             let _ = std::fs::write(wal_name(&copy), w);
         }
         let d = if mapped {
-            let db = catch(|| Db::new(&copy)).map_err(coarse("failed write: reopened file unreadable"))?.map_err(|e| Fail::new("failed write: reopened file unreadable", format!("Db::new: {e:?}")))?;
+            let db = catch(|| Db::new(&copy)).map_err(coarse("failed write: reopened file unreadable"))?.map_err(|e| Fail::new(format!("failed write: reopened file unreadable{cause}"), format!("Db::new: {e:?}")))?;
             catch(|| dump_db(&db, &[], DumpMode::Strict)).map_err(coarse("failed write: reopened file unreadable"))?.map_err(coarse("failed write: reopened file unreadable"))?
         } else {
-            let db = catch(|| DbFile::new(&copy)).map_err(coarse("failed write: reopened file unreadable"))?.map_err(|e| Fail::new("failed write: reopened file unreadable", format!("DbFile::new: {e:?}")))?;
+            let db = catch(|| DbFile::new(&copy)).map_err(coarse("failed write: reopened file unreadable"))?.map_err(|e| Fail::new(format!("failed write: reopened file unreadable{cause}"), format!("DbFile::new: {e:?}")))?;
             catch(|| dump_db(&db, &[], DumpMode::Strict)).map_err(coarse("failed write: reopened file unreadable"))?.map_err(coarse("failed write: reopened file unreadable"))?
         };
         if d != expected {
             return Err(Fail::new(
-                "failed write: later committed work lost or changed after reopen",
+                format!("failed write: later committed work lost or changed after reopen{cause}"),
                 format!("differs in {}; step {target} {step:?}, failing storage call {call} of [{a},{b})\nreopened vs model: {}", d.diff_section(&expected), d.diff(&expected)),
             ));
         }
     }
     ci.evals = 1;
     ci.nontrivial = wrote_before && sinfo.ok_steps > 0;
+    ci.label(if stuck { "handled although the storage transaction was left open" } else { "handled, storage transaction closed" });
     if wrote_before {
         ci.label("fault after >=1 storage write of the query");
     }
